@@ -53,7 +53,8 @@ theorem C19_witness_status_shape_mismatch :
     ∧ conformsGen ⟨false, false, false⟩ (.ref n!"HistoryEntry") .null = false := by decide +kernel
 
 theorem exit_code_discipline :
-    Gen.exitOk = 0 ∧ errCodes.all (· != 0) = true ∧ Gen.errArmStdoutSites = 0 ∧ Gen.errArmStderrSites ≥ 1
+    Gen.exitOk = 0 ∧ Gen.exitOkInterrupted.all (· != 0) = true ∧ Gen.okArmStdoutSites = 0
+    ∧ errCodes.all (· != 0) = true ∧ Gen.errArmStdoutSites = 0 ∧ Gen.errArmStderrSites ≥ 1
     ∧ Gen.preDispatchExits.all (fun e => e.2.1 != n!"0") = true
     ∧ Gen.initHelperStdoutSites.all (fun e => e.2 == 0) = true := by decide +kernel
 
